@@ -283,6 +283,21 @@ def terminates_lemma(fc, cls_qual):
     return lemma
 
 
+def short_segment_lemma(E):
+    """a TCP segment or datagram of at most 7 bytes arriving at a fresh Modbus/TCP receiver is shorter than any frame (7 header bytes and a
+    function code): whatever it contains - a bare write PDU included - and whatever the framer does with it (raise, wait, hand an error
+    response to the callback), no cell of the store changes"""
+    ctx = ST.slave_context(E)
+    before = E.clone(ctx)
+    seg = E.bytes('segment', 1, 7)
+    f = E.new(FRAMER_PIP.rsplit('.', 1)[0], E.new(DEC))
+
+    def cb(req):
+        E.method(req, 'execute', ctx)
+    out = E.attempt(lambda: E.method(f, 'processIncomingPacket', E.as_bytes(seg), E.callback(cb, 'callback'), [E.int('unit0', 0, 256)], single=E.bool('single')))
+    E.prove('short:a-segment-shorter-than-a-frame-changes-no-cell', tables_unchanged(E, ctx, before))
+
+
 def truncated_datagram(E):
     """datagram front-ends hand every datagram to one framer: a datagram that announces more bytes than it carries (MBAP length larger than
     what arrived) is a malformed frame, not the beginning of one - it is discarded whole, so that nothing of it can be completed by bytes
@@ -311,6 +326,10 @@ def get_units():
     q = 'pymodbus.file_message.WriteFileRecordRequest.decode'
     us.append(Unit('%s/terminates.fc21' % PROP, terminates_lemma(0x15, q), [PROP], functions=[q, DEC + '.decode', DEC + '._helper'],
                    loops={(q, 0): LoopAnn('groups', lambda v, j: True, variant=lambda v: v.byte_count - v.count)}))
+    triv = lambda name: LoopAnn(name, lambda v, j: True)
+    us.append(Unit('%s/short.socket' % PROP, short_segment_lemma, [PROP], contracts=WRITE_CONTRACTS,
+                   loops={('pymodbus.file_message.ReadFileRecordRequest.decode', 0): triv('groups20'), ('pymodbus.file_message.WriteFileRecordRequest.decode', 0): triv('groups21')},
+                   functions=[FRAMER_PIP, FRAMER_PIP.rsplit('.', 1)[0] + '._process', DEC + '.decode', DEC + '._helper']))
     for c in WRITE_CONTRACTS + ST.STORE_CONTRACTS:
         us.append(c.unit())
     for fe in S.FRONTENDS:
